@@ -196,6 +196,12 @@ pub fn known_shapes(root: &SyntaxNode) -> Vec<&'static str> {
     if any_node(root, &|n| n.kind() == K::Args && n.children().any(|c| c.kind() == K::Semicolon || c.kind() == K::Array)) {
         add("F26");
     }
+    // F28: a reflowable `table`/`grid` call is always laid out over several lines, also on a prose line
+    if any_node(root, &|n| {
+        n.kind() == K::FuncCall && n.children().next().is_some_and(|c| c.kind() == K::Ident && (c.text() == "table" || c.text() == "grid"))
+    }) {
+        add("F28");
+    }
     // F18: a comment between the parts of a field access
     if any_node(root, &|n| n.kind() == K::FieldAccess && n.children().any(|c| is_comment(c.kind()))) {
         add("F18");
@@ -212,6 +218,7 @@ pub fn affects(id: &str, prop: &str) -> bool {
         "F17" => &["C04", "C01", "C02", "C06", "C03", "C09", "C13", "C10", "C08"],
         "F7" => &["C12"],
         "F24" => &["C09"],
+        "F28" => &["C08"],
         "F26" => &["C13"],
         "F21" => &["C01", "C02", "C03", "C08", "C13"],
         "F10" => &["C03"],
